@@ -85,14 +85,36 @@ func c05Gen(tier string, seed int64) []core.Case {
 				if tier == "thorough" {
 					for _, how := range kinds {
 						for _, pos := range poss {
-							add(faultSpec{fi.Type, fi.Field, ix, how, pos, false}, "field")
+							add(faultSpec{fi.Type, fi.Field, ix, how, pos, false, ""}, "field")
 						}
 					}
 				} else {
-					add(faultSpec{fi.Type, fi.Field, ix, kinds[k%len(kinds)], poss[(k/4)%len(poss)], false}, "field")
+					add(faultSpec{fi.Type, fi.Field, ix, kinds[k%len(kinds)], poss[(k/4)%len(poss)], false, ""}, "field")
 					k++
 				}
 			}
+		}
+		// point-to-point types: the copy for ONE recipient altered, everybody else gets the genuine message
+		for _, fi := range staticFields[sc.proto] {
+			sp := sim.SpecOf(sc.proto, fi.Type)
+			if sp == nil || sp.Bcast {
+				continue
+			}
+			victims := []string{"other-index", "last"}
+			if sp.From != sp.To {
+				victims = append(victims, "same-index")
+			}
+			for vi, v := range victims {
+				for pi, pos := range poss {
+					if tier != "thorough" && pi != (k+vi)%3 {
+						continue
+					}
+					for _, ix := range indexChoices(fi, tier)[:1] {
+						add(faultSpec{fi.Type, fi.Field, ix, []string{"+1", "donor"}[(k+vi)%2], pos, true, v}, "field")
+					}
+				}
+			}
+			k++
 		}
 		{
 			// control: the same engine with no fault - every honest party must finish and the outputs pass the oracle
@@ -110,7 +132,7 @@ func c05Gen(tier string, seed int64) []core.Case {
 			if !hasContent {
 				continue // the ACK messages carry nothing: a mirrored ACK is byte-identical to an honest one
 			}
-			add(faultSpec{sp.Short, "*", "", "mirror", poss[k%3], false}, "mirror")
+			add(faultSpec{sp.Short, "*", "", "mirror", poss[k%3], false, ""}, "mirror")
 			k++
 		}
 		if sc.proto == "ecdsa-keygen" || sc.proto == "ecdsa-resharing" {
@@ -307,7 +329,7 @@ func c05Oracle(r *core.Result, fr *faultRun, f faultSpec) {
 		if n == D || len(n.Ended) == 0 {
 			continue
 		}
-		if sp != nil && (sp.To == "all" || sp.To == "old+new" || sp.To == n.Group) {
+		if sp != nil && (sp.To == "all" || sp.To == "old+new" || sp.To == n.Group) && (!f.One || n == fr.victim) {
 			recipientsEnded++
 		}
 		if len(n.Ended) > 1 {
